@@ -168,6 +168,28 @@ CLAIMED["C03"] = dict(
          "values are enumerated natively (finite class). Open known finding: an invalid DWA parks the node in Closing without "
          "a DPR. Outside: multi-field corruption beyond the raw-buffer bound; states other than Open (C06).")
 
+CLAIMED["C06"] = dict(
+    level="model_checking", technique=E1 + " (one-step inductive check against a reference transition function)", design="6/C06",
+    text="For each (role, state) one tick of the real PeerStateMachine loop body is executed on a stand-in transport from a "
+         "pre-state whose local-stop / peer-disconnect / connect-ack flags, idle counter and watchdog timeout (all values), queued "
+         "outbound message and inbound queue head (17 message kinds incl. CER/CEA from a wrong host or realm, with missing AVP or "
+         "wrong flags, DWR/DWA/DPR/DPA variants, addressed / misaddressed application requests; symbolic identifiers) are solver "
+         "variables; the reported state, the messages handed to the transport, delivery to the application, release of the "
+         "transport on Closed and the absence of exceptions are compared with a reference transition function transcribed from "
+         "the property text. Bounded walks from Closed confirm reachability and 'Open only after a valid exchange'.",
+    note="Trusted: CrossHair, z3, stand-in transport, the reference transition function. Outside: election states beyond 'absorbing "
+         "and silent', SCTP, real timers, outbound messages submitted before Open.")
+CLAIMED["C14"] = dict(
+    level="model_checking", technique=E3, design="6/C14",
+    text="Bromelia.send_message, handler_pending_answers, PendingAnswer.wait/notify and the Worker hand-over/registry methods are "
+         "re-compiled from source into coroutines (blocking operations and registry accesses become preemption points; in the "
+         "'lines' queries every statement does) and run under a scheduler whose every decision is a boolean solver variable; "
+         "CrossHair exhausts all schedules within the preemption bound: each caller must get the answer object whose Hop-by-Hop "
+         "equals its request's, nobody is left blocked (Deadlock is the violation witness), the registry ends empty.",
+    note="Trusted: CrossHair path enumeration, the coroutiniser, stand-in Lock/Event/Queue/Barrier, 'timeouts fire only at "
+         "quiescence'. The solver prunes nothing in the schedule dimension (stated in DESIGN 2.4). Bounds: k<=2 callers (quick), "
+         "preemption budgets as listed in the evidence; outside: same Hop-by-Hop twice (C15), bytecode-level preemption.")
+
 PENDING_REASON = "check not built yet in this session (planned in DESIGN.md section 6); no claim is made"
 NOT_APPLICABLE = {}
 
